@@ -410,6 +410,7 @@ struct Worker {
   long long current = -1;       // index being executed
   double current_since = 0;
   size_t next_pos = 0;          // next position in this worker's stripe
+  int restart_requests = 0;     // times this worker slot asked to be replaced (exit status 4)
   bool done = false;
   std::string errpath;
   std::string breadcrumb;
@@ -552,7 +553,7 @@ static int cmd_check(int argc, char** argv) {
     spawn_worker(cs, workers[size_t(w)]);
   }
 
-  uint64_t evaluations = 0, steps = 0, reexecuted = 0;
+  uint64_t evaluations = 0, steps = 0, reexecuted = 0, worker_replacements = 0;
   std::unordered_set<uint64_t> distinct;
   std::vector<uint64_t> run_hash(cs.order.size(), 0);
   std::vector<uint8_t> run_done(cs.order.size(), 0);
@@ -645,6 +646,13 @@ static int cmd_check(int argc, char** argv) {
         close(w.fd); w.fd = -1;
         bool clean = w.done && WIFEXITED(status) && WEXITSTATUS(status) == 0;
         bool reported = WIFEXITED(status) && WEXITSTATUS(status) == 3;
+        // exit status 4: the worker ran out of a process resource (threads) and wants to be replaced; the interrupted run is
+        // repeated by the new worker (at most three times per position, then it is a harness error like any other exit)
+        if (WIFEXITED(status) && WEXITSTATUS(status) == 4 && w.current >= 0 && w.next_pos > 0 && w.restart_requests < 1000) {
+          w.restart_requests++;
+          w.next_pos--; w.current = -1;
+          worker_replacements++;
+        }
         if (!clean && !reported && !w.violation_reported && w.current >= 0 && !(stop && WIFSIGNALED(status) && WTERMSIG(status) == SIGKILL)) {
           std::string text = tail_of_file(w.errpath, 200000);
           std::string detail;
@@ -804,6 +812,7 @@ static int cmd_check(int argc, char** argv) {
   cov.set("counters", cj);
   Json det = Json::Object();
   det.set("reexecuted_in_process", Json::Int(int64_t(reexecuted)));
+  det.set("workers_replaced_on_request", Json::Int(int64_t(worker_replacements)));
   det.set("reexecuted_fresh_process", Json::Int(int64_t(gate_checked)));
   det.set("mismatches", Json::Int(int64_t(nondeterminism.size())));
   cov.set("determinism", det);
